@@ -40,6 +40,12 @@ def run(ctx: Ctx):
   for r in (r1, r2, r3, r4, r5, r7, r8, r9, r10, r11, r13):
     ctx.guard(r, m)
   from mlmverif.props import c04
+  from mlmverif.props import c13
+  ctx.include('R-C05-14', '"all other producers stop and return": the producers FEEDING the failed queue\'s own producers (the input'
+              ' queue of a stacked stream) are stopped through the link — every recorded failure runs the loop over the linked'
+              ' queues, and the link method registers its argument before it tests whether the queue is already over'
+              ' (R-C13-12); with test-then-register a failure between the two leaves the feeders blocked in put()', c13.r12,
+              min_instances=4)
   ctx.include('R-C05-6', '"never an indefinite wait": the queue\'s monitor'
               ' discipline on the stop/failure paths — CV discipline (R-C04-1),'
               ' lock balance (R-C04-3), lock-order acyclicity and no wait under'
@@ -881,6 +887,9 @@ from mlmverif.selfcheck import B, OK  # noqa: E402
 
 _F = 'utils/iter_utils.py'
 VARIANTS = [
+    B('link-tests-before-it-registers', 'utils/iter_utils.py',
+      "    self._stopped_with.append(other)\n    if self.enqueue_done:\n      # Already over, e.g., failed on the very first element.\n      other.maybe_stop()\n",
+      "    if self.enqueue_done:\n      # Already over, e.g., failed on the very first element.\n      other.maybe_stop()\n      return\n    self._stopped_with.append(other)\n", 'R-C05-14'),
     B('revert-batch-consumer-swallows-the-recorded-failure', _F,
       "              not exhausted\n              and self.ignore_error\n              and (result or e is not self._exception)\n          ):",
       "              not exhausted\n              and self.ignore_error\n          ):", 'R-C05-13'),
